@@ -180,6 +180,7 @@ func (d *Driver) randomScenario(name string, maxClients, maxBatches int, fsOnly 
 		MinMemMerge: []int{0, 0, 2, 3, 100}[r.Intn(5)],
 		Merge:       []string{"eager2", "eager3", "none", "default"}[r.Intn(4)],
 		NoMmap:      r.Intn(5) == 0,
+		ReuseBatch:  r.Intn(3) == 0,
 	}
 	if fsOnly || r.Intn(4) != 0 {
 		scn.Opts.Path = "FS"
